@@ -276,7 +276,12 @@ def _line_circle_closest_points(
     delta = line_point + t * line_direction
     line_closest = center + delta
     delta -= np.dot(normal, delta) * normal
-    delta = norm_vector(delta)
+    if np.linalg.norm(delta) <= 1e-14 * radius:
+        # The point of the line lies on the axis of the circle (up to
+        # rounding errors): all points of the circle are equidistant.
+        delta = norm_vector(pr.perpendicular_to_vector(normal))
+    else:
+        delta = norm_vector(delta)
     circle_closest = center + radius * delta
     return line_closest, circle_closest
 
